@@ -538,7 +538,7 @@ def nontrivial(c):
 
 
 PARTS = [
-    Part("serialisation", strategy=case, oracle=oracle, nontrivial=nontrivial, n={"quick": 2000, "thorough": 15000},
+    Part("serialisation", strategy=case, oracle=oracle, nontrivial=nontrivial, n={"quick": 4000, "thorough": 15000},
          sample=lambda c: {"alg": c["alg"], "band": c["band"], "lang": c["lang"], "enc": c["enc"],
                            "ids": [p["id"] for p in c["net"]["points"]], "description": c["net"]["description"]}),
 ]
